@@ -32,6 +32,7 @@ if [ -n "${PAR:-}" ]; then
 cd $ROOT
 export VERIF_REPO=$WT VERIF_OUT=/root/scratch/inst_$NAME
 mkdir -p $VERIF_OUT
+[ -f $WT/Cargo.lock ] || cp /repo/Cargo.lock $WT/Cargo.lock
 res=$OUT/checks.txt; : > $res
 for p in ${CHECKS:-C01 C02 C03 C04 C05 C06 C07 C08 C09 C10 C11 C12 C13 C14 C15 C16}; do
   ./check $p --tier quick 2>&1 | grep -v "^KNOWN" | tail -2 | sed "s/^/$p: /" >> $res
